@@ -104,7 +104,7 @@ static void program_case(unsigned prog, int len, int big_ok) {
 
 void run_C15(void) {
   const int th = G.thorough;
-  const unsigned nprog = th ? 6000 : 320;
+  const unsigned nprog = th ? 40000 : 960;
   for (unsigned p = 0; p < nprog; p++) program_case(p, 300, (p % 8) == 0);
   for (int i = 0; i < NENV; i++)
     for (int n = 0; n < 2; n++)
